@@ -317,11 +317,13 @@ def r4(ctx):
     site = body.get("def_span")
     c = cfg_of(body)
     loops = c.loops()
-    ab_calls = k2.call_sites(P, key, None, pred=lambda k_, f: "Engine::alphabeta" in k_)
+    wr = k2.ab_wrappers(P)          # private helpers that stand for one alphabeta call (plain, or Some(score) / None on timeout)
+    is_ab = lambda k_: "Engine::alphabeta" in k_ or T.strip_generics(k_) in wr
+    ab_calls = k2.call_sites(P, key, None, pred=lambda k_, f: is_ab(k_))
     ctx.floor("alphabeta calls at the root", len(ab_calls), 3)
     flips = [t["f"].get("decl_args", "") for _, t in ab_calls]
     ctx.ob("root searches the opposite policy", all("<P as chess_engine::Policy>::Flip" in f for f in flips), f"root calls alphabeta with {flips}", site=site, sample=flips[:1])
-    inner = [h for h in loops if any(body["blocks"][b]["t"]["k"] == "call" and "Engine::alphabeta" in body["blocks"][b]["t"]["f"].get("fn", "") for b in loops[h])]
+    inner = [h for h in loops if any(body["blocks"][b]["t"]["k"] == "call" and is_ab(body["blocks"][b]["t"]["f"].get("fn", "")) for b in loops[h])]
     outer = max(loops, key=lambda h: len(loops[h])) if loops else None
     move_loops = [h for h in inner if h != outer]
     ctx.floor("root move loops", len(move_loops), 2)
@@ -340,6 +342,10 @@ def r4(ctx):
             if d and d[0] == "call" and "is_complete" in d[1]:
                 vals = [int(v) for v, b in t["tg"] if b == s]
                 why = "timeout" if vals != [0] else None
+            if d and d[0] == "discr" and d[1][0] == "call" and wr.get(T.strip_generics(d[1][1]), {}).get("form") == "option":
+                # the helper answers None exactly when the time limit expired while it searched the move
+                vals = [int(v) for v, b in t["tg"] if b == s]
+                why = "timeout" if (vals == [0] or (not vals and all(int(v) != 0 for v, _ in t["tg"]))) else None
             ctx.ob(f"loop@{move_loops.index(h)} exit@{exits.index((x, s))}", why is not None, f"a root move loop can be left on {str(d)[:120]}: neither generator exhaustion nor timeout", site=site,
                    sample={"exit": why})
 
@@ -410,7 +416,7 @@ def r5(ctx):
     ab = P.find_fn("Engine::alphabeta", "chess_engine")
     cand_locals = set()
     for i, l in enumerate(body["locals"]):
-        if l.get("n") and l["ty"] == SCORE and any(o[0] == "call" and T.strip_generics(o[1]) == ab for o in k2.origins(P, body, i)):
+        if l.get("n") and l["ty"] == SCORE and any(o[0] == "call" and (T.strip_generics(o[1]) == ab or T.strip_generics(o[1]) in k2.ab_wrappers(P)) for o in k2.origins(P, body, i)):
             cand_locals.add(l["n"])
     # every assignment `<Option<ChessMove> local> = Some(mv)` is guarded by P::is_better(running best, candidate) == true
     n = 0
@@ -451,7 +457,7 @@ def _fold_sites(P, key):
     ab = P.find_fn("Engine::alphabeta", "chess_engine")
     cand_locals = set()
     for i, l in enumerate(body["locals"]):
-        if l.get("n") and l["ty"] == SCORE and l["n"] not in score_locals and any(o[0] == "call" and T.strip_generics(o[1]) == ab for o in k2.origins(P, body, i)):
+        if l.get("n") and l["ty"] == SCORE and l["n"] not in score_locals and any(o[0] == "call" and (T.strip_generics(o[1]) == ab or T.strip_generics(o[1]) in k2.ab_wrappers(P)) for o in k2.origins(P, body, i)):
             cand_locals.add(l["n"])
     good, stray = [], []
     for bi, blk in enumerate(body["blocks"]):
@@ -512,7 +518,7 @@ def r7(ctx):
         src = k2.origins(P, body, o["p"]["l"], path=k2._field_path(o["p"]["pj"]) or ()) if o.get("k") in ("copy", "move") else {("const", str(k2.describe_operand(P, body, o)))}
         bad = []
         for x in src:
-            if x[0] == "call" and T.strip_generics(x[1]) == ab:
+            if x[0] == "call" and (T.strip_generics(x[1]) == ab or T.strip_generics(x[1]) in k2.ab_wrappers(P)):
                 continue
             if x[0] == "const" and "WORST_SCORE" in x[1]:
                 continue
